@@ -2,7 +2,7 @@
    and splits.  Statements only; proofs in Proofs/SseProofs.v, SseSpec.v. *)
 From Coq Require Import Init.Byte.
 From Hio Require Import Base.Prelude Model.HttpLine Model.Chunk Model.Sse
-  Proofs.HttpLineProofs Proofs.ChunkProofs Proofs.ChunkRoundtrip Proofs.SseProofs Proofs.SseSpec.
+  Proofs.HttpLineProofs Proofs.ChunkProofs Proofs.ChunkRoundtrip Proofs.SseProofs Proofs.SseSpec Proofs.SseTrack.
 
 (* sse_spec (Model/Sse.v) is the WHATWG "interpreting an event stream"
    algorithm run over the WHOLE byte stream: lines end in CR LF, CR or LF (any
@@ -59,6 +59,45 @@ Theorem C15_chunked_any_wire : forall reads cst b os r,
   r = sse_spec (body_of (somes os)).
 Proof. exact sse_chunked_matches_spec. Qed.
 Print Assumptions C15_chunked_any_wire.
+
+(* Tracking across connections.  A Respondent lives as long as its Client and
+   gets a fresh EventSource for every event-stream response; it starts a response
+   holding r0 = (.leid, .retry) remembered from before.  After the reads of the
+   response (synced after every read) it holds the last id field / last valid
+   retry field of this stream if the stream has one, else exactly r0 ... *)
+Theorem C15_leid_retry_tracked : forall reads r0 sf bf os,
+  feeds sse_stage sse_start reads = (Live sf bf, os) ->
+  last (trace_plain sse_start r0 reads) r0 =
+  (match snd (fst (sse_spec (concat reads))) with Some i => Some i | None => fst r0 end,
+   match snd (sse_spec (concat reads)) with Some n => n | None => snd r0 end).
+Proof. exact resp_tracks_spec. Qed.
+Print Assumptions C15_leid_retry_tracked.
+
+(* ... in particular comments, retry fields and events without id leave the
+   remembered last event id unchanged (every prefix of the reads is itself a
+   list of reads, so this holds after every read). *)
+Theorem C15_idless_keeps_leid : forall reads r0 sf bf os,
+  feeds sse_stage sse_start reads = (Live sf bf, os) ->
+  snd (fst (sse_spec (concat reads))) = None ->
+  fst (last (trace_plain sse_start r0 reads) r0) = fst r0.
+Proof. exact resp_idless_unchanged. Qed.
+Print Assumptions C15_idless_keeps_leid.
+
+(* Chunked responses: the value after all reads is the value a close-delimited
+   stream whose reads are the data chunks would give (then the two theorems
+   above apply to it). *)
+Theorem C15_tracked_chunked : forall reads r0,
+  last (trace_chunked (Live CSize []) sse_start r0 reads) r0 =
+  last (trace_plain sse_start r0 (data_chunks (snd (feeds chunk_stage (Live CSize []) reads)))) r0.
+Proof. intros. apply trace_chunked_last. Qed.
+Print Assumptions C15_tracked_chunked.
+
+Example C15_tracking_example :
+  (* remembered ("4", 1000); resumed stream ": keep-alive LF LF data: x LF LF" in two reads *)
+  trace_plain sse_start (Some (of_bytes [x34]), 1000%N)
+    [of_bytes [x3a;x20;x6b;x0a;x0a]; of_bytes [x64;x61;x74;x61;x3a;x20;x78;x0a;x0a;x69;x64;x3a;x20;x35;x0a]]
+  = [(Some (of_bytes [x34]), 1000%N); (Some (of_bytes [x35]), 1000%N)].
+Proof. vm_compute. reflexivity. Qed.
 
 (* Non-vacuity.  The stream
      id: 1 CRLF event: a CRLF data: x CRLF data: y CRLF CRLF
